@@ -1,5 +1,5 @@
 import FastQr.Proofs.StructureSound
-import FastQr.Proofs.Total
+import FastQr.Proofs.StructSize
 namespace FastQr.Proofs.Deinterleave
 open FastQr Model Spec Finite Proofs Proofs.StructureSound
 
